@@ -273,8 +273,18 @@ def make_spec(rng, abstract, routes=ALL_ROUTES, shuffle=False, as_ode_prob=0.0, 
     return spec, meta
 
 
-def rand_point(rng, meta, t_max=3):
+def rand_point(rng, meta, t_max=3, integer=False, zeros=False, big=False):
+    """`integer=True`: integer state values and an integer time (so that the point can be handed to the
+    evaluators as Python ints / integer-dtype arrays), `zeros=True` additionally makes a quarter of the states
+    exactly 0 (zero rates), `big=True` draws populations of 1e4..1e6; the default stream of random choices is unchanged"""
     env = {}
+    if integer:
+        for s in meta["states"]:
+            env[s] = Fraction(0 if (zeros and rng.random() < 0.25) else (rng.randint(10 ** 4, 10 ** 6) if big else rng.randint(1, 40)))
+        for p in meta["params"]:
+            env[p] = Fraction(rng.randint(1, 20), rng.choice([7, 10, 13]))
+        env["t"] = Fraction(rng.randint(0, t_max))
+        return env
     for s in meta["states"]:
         env[s] = Fraction(rng.randint(1, 40), rng.choice([1, 2, 3]))
     for p in meta["params"]:
@@ -289,3 +299,40 @@ def derived_env(meta_or_spec_derived, env):
     for name, e in meta_or_spec_derived:
         env[name] = E.ev(e, env)
     return env
+
+
+def decl_entries(d):
+    """declared entries of a state / parameter declaration (string or list form), limits kept"""
+    if "str" in d:
+        import re
+        return [x for x in re.split(r"[,\s]+", d["str"]) if x.strip()]
+    return list(d["list"])
+
+
+def sibling_spec(spec, meta, state_rev=True, param_perm=None, derived_bump=True, last_event_incremental=False):
+    """A second definition under the SAME names: state declaration reversed, parameter declaration permuted
+    (`param_perm` = positions of the old list in the new order), the first derived parameter redefined (+1), the last
+    constructor event entered by add_event instead (event order is unchanged).  Returns (spec2, meta2, changed)."""
+    s2, m2 = copy.deepcopy(spec), copy.deepcopy(meta)
+    changed = []
+    if derived_bump and s2.get("derived"):
+        s2["derived"][0][1] = E.add(s2["derived"][0][1], E.num(1))
+        changed.append("derived")
+    ent = decl_entries(s2["state"])
+    if state_rev and len(ent) >= 2:
+        ent = list(reversed(ent))
+        s2["state"] = {"list": ent}
+        m2["states"] = expand_decl([x if isinstance(x, str) else x[0] for x in ent])
+        changed.append("state_order")
+    pent = decl_entries(s2["param"])
+    if param_perm is not None and len(pent) >= 2 and list(param_perm) != list(range(len(pent))):
+        pent = [pent[i] for i in param_perm]
+        s2["param"] = {"list": pent}
+        m2["params"] = [x if isinstance(x, str) else x[0] for x in pent]
+        changed.append("param_order")
+    if last_event_incremental and s2["ctor"]["event"] and not any(o["op"] == "add_event" for o in s2.get("then", [])) \
+            and not s2["ctor"]["transition"] and not s2["ctor"]["birth_death"]:
+        ev = s2["ctor"]["event"].pop()
+        s2["then"] = [dict(op="add_event", **ev)] + list(s2.get("then", []))
+        changed.append("incremental")
+    return s2, m2, changed
